@@ -39,9 +39,12 @@ def run_tlc(module, cfg, metadir, env=None, workers=None, timeout=1800, coverage
     jopts = ["-Xss1g", "-Xmx" + heap, "-XX:+UseParallelGC"]
     if deque:
         jopts.append("-Dtlc2.tool.queue.IStateQueue=StateDeque")
+    # java is started directly (same class path as the `tlc` wrapper) so that -Xss is on the command line: the
+    # launcher sizes the MAIN thread from it, and TLC evaluates the invariants of initial states in the main thread
+    # (a -Xss passed through JAVA_TOOL_OPTIONS only reaches the worker threads)
     cmd = ["java"] + jopts + ["-cp", JAR + ":/opt/veriftools/tla/CommunityModules-deps.jar", "tlc2.TLC"]
-    # use the wrapper's classpath when available
-    cmd = ["tlc"]
+    if not os.path.exists(JAR):
+        cmd = ["tlc"]
     args = ["-workers", str(workers), "-metadir", metadir, "-cleanup", "-noGenerateSpecTE",
             "-config", cfg]
     if coverage:
